@@ -26,8 +26,10 @@ QuaTL(d) ==
     [ notes |-> { [t |-> Qua!DenHits(d)[i].t \div 10, c |-> Qua!DenHits(d)[i].c, n |-> 0] : i \in DOMAIN Qua!DenHits(d) } \cup
                 { [t |-> Qua!DenHolds(d)[i].t \div 10, c |-> Qua!DenHolds(d)[i].c, n |-> Qua!DenHolds(d)[i].n \div 10] : i \in DOMAIN Qua!DenHolds(d) },
       tempo |-> { [t |-> Qua!DenBpms(d)[i].t \div 10, bl |-> 600000000 \div Qua!DenBpms(d)[i].bpm] : i \in DOMAIN Qua!DenBpms(d) } ]
-SMTL(f, k) ==
-    LET ch == f.charts[k] IN
+(* the order of the beat=bpm pairs inside #BPMS is presentation (as in SMTrace): the timeline is the pairs sorted by beat *)
+SMTL(f0, k) ==
+    LET f == [f0 EXCEPT !.bpms = SortSeq(f0.bpms, LAMBDA a, b : a.p < b.p)]
+        ch == f.charts[k] IN
     [ notes |-> { [t |-> x.t, c |-> x.c, n |-> 0] : x \in SM!Simple(f, ch, "1") } \cup
                 { [t |-> x.t, c |-> x.c, n |-> x.n] : x \in SM!Long(f, ch, "hold") },
       tempo |-> { [t |-> SM!TStart(f.bpms, f.off, j), bl |-> f.bpms[j].bl] : j \in DOMAIN f.bpms } ]
@@ -58,7 +60,9 @@ NotesEq(a, b, shift, res) ==
 (* every source tempo point is a target tempo point; its value is compared for the last one (the running tempo), and for  *)
 (* every one when neither end re-seats tempo changes onto measure lines (osu, Quaver, O2Jam source -> osu, Quaver)         *)
 TempoKept(a, b, res, strict) ==
-    \A x \in a : \E y \in b : AbsV(y.t - x.t) <= res /\ ((strict \/ \A z \in a : z.t <= x.t) => AbsV(y.bl - x.bl) <= 3)
+    /\ \A x \in a : \E y \in b : AbsV(y.t - x.t) <= res /\ ((strict \/ \A z \in a : z.t <= x.t) => AbsV(y.bl - x.bl) <= 3)
+    \* and, where nothing is re-seated, the target has no tempo point of its own
+    /\ strict => \A y \in b : \E x \in a : AbsV(y.t - x.t) <= res /\ AbsV(y.bl - x.bl) <= 3
 
 WellFormedTgt(e, k) ==
     CASE e.tgt_game = "osu" -> LET w == Osu!WellFormed(e.tgt[k]) IN \A c \in DOMAIN w : w[c]
